@@ -90,6 +90,35 @@ E("aotools.functions.karhunenLoeve.piston_orth", [], lambda r, z: {"nr": r.choic
 E("aotools.functions.karhunenLoeve.gkl_azimuthal", [], lambda r, z: {"nord": r.choice([3, 5]), "npp": 12}, lambda f, A, S: f(S["nord"], S["npp"]))
 E("aotools.functions.karhunenLoeve.gkl_kernel", [], lambda r, z: {"ri": 0.0, "nr": 6, "stf": r.choice(["kolmogorov", "vonKarman"])},
   lambda f, A, S: f(S["ri"], S["nr"], resolve("aotools.functions.karhunenLoeve.gkl_radii")(S["ri"], S["nr"]), S["stf"], 10.0))
+def _gkl_fcom(f, A, S):
+    import numpy
+    kl = importlib.import_module("aotools.functions.karhunenLoeve")
+    rad = kl.gkl_radii(S["ri"], S["nr"])
+    kern = kl.gkl_kernel(S["ri"], S["nr"], rad, "kolmogorov", None)
+    if S["f64"]:
+        kern = numpy.asarray(kern, dtype=float)
+    keep = kern.copy()
+    out = f(S["ri"], kern, S["nfunc"])
+    _unchanged("kernels", keep, kern)
+    out2 = f(S["ri"], kern, S["nfunc"])          # the same kernel reused for a second decomposition
+    return [out[0], out[1], out[2], out2[0]]
+
+
+E("aotools.functions.karhunenLoeve.gkl_fcom", [], lambda r, z: {"ri": r.choice([0.0, 0.2]), "nr": 8, "nfunc": 6, "f64": r.choice([True, False])}, _gkl_fcom)
+
+
+def _gkl_sfi(f, A, S):
+    kl = importlib.import_module("aotools.functions.karhunenLoeve")
+    bas = kl.gkl_basis(S["ri"], 8, None, 6, "kolmogorov")
+    keep = dict((k, (v.copy() if hasattr(v, "copy") else v)) for k, v in bas.items())
+    out = [f(bas, i) for i in range(1, 4)]
+    for k, v in keep.items():
+        if hasattr(v, "shape"):
+            _unchanged("kl_basis[%r]" % k, v, bas[k])
+    return out
+
+
+E("aotools.functions.karhunenLoeve.gkl_sfi", [], lambda r, z: {"ri": r.choice([0.0, 0.2])}, _gkl_sfi)
 E("aotools.functions.karhunenLoeve.gkl_basis", [], lambda r, z: {"ri": r.choice([0.0, 0.2]), "nr": 8, "nfunc": 6},
   lambda f, A, S: sorted((k, v) for k, v in f(S["ri"], S["nr"], None, S["nfunc"], "kolmogorov").items()))
 E("aotools.functions.karhunenLoeve.make_kl", [], lambda r, z: {"nmax": r.choice([3, 5]), "dim": 12, "ri": r.choice([0.0, 0.2]), "mask": r.choice([True, False])},
@@ -216,8 +245,59 @@ E("aotools.turbulence.slopecovariance.create_tomographic_covariance_reconstructo
   lambda r, z: {"n": r.choice([1, 2]), "cond": r.choice([0, 1e-3])}, lambda f, A, S: f(A["c"], S["n"], S["cond"]))
 
 
+_OMIT = {}
+
+
+def omit_defaults(f):
+    """f with every argument that only says 'use the default' left out of the call (a value of None for a parameter that
+    has a default, or a number/bool/string equal to the parameter's default): the function then uses its own default
+    objects, which is how most callers call it. Functions without an introspectable signature are returned unchanged."""
+    if f in _OMIT:
+        return _OMIT[f]
+    import inspect
+    try:
+        sig = inspect.signature(f)
+    except (TypeError, ValueError):
+        _OMIT[f] = f
+        return f
+    plain = (int, float, bool, str, type(None))
+
+    def g(*a, **k):
+        try:
+            b = sig.bind(*a, **k)
+        except TypeError:
+            return f(*a, **k)
+        args, kw = [], {}
+        positional = True
+        for name, par in sig.parameters.items():
+            if name not in b.arguments:
+                positional = False
+                continue
+            val = b.arguments[name]
+            if par.kind in (par.VAR_POSITIONAL, par.VAR_KEYWORD):
+                return f(*a, **k)
+            drop = par.default is not par.empty and (val is None or (type(par.default) in plain and type(val) is type(par.default)
+                                                                      and val == par.default))
+            if drop:
+                positional = False
+                continue
+            if positional and par.kind in (par.POSITIONAL_ONLY, par.POSITIONAL_OR_KEYWORD):
+                args.append(val)
+            else:
+                kw[name] = val
+        return f(*args, **kw)
+    _OMIT[f] = g
+    return g
+
+
 class ArgumentContainerModified(Exception):
     """a list passed as an argument came back with other elements"""
+
+
+def _unchanged(name, before, after):
+    import numpy
+    if not (before.shape == after.shape and before.dtype == after.dtype and numpy.array_equal(before, after, equal_nan=True)):
+        raise ArgumentContainerModified(name)
 
 
 def _covmat(f, A, S):
@@ -256,7 +336,7 @@ EXCLUDED = {
 }
 
 # internal helpers of the KL module that are importable but only meaningful inside make_kl / gkl_basis (covered through them)
-VIA_PARENT = ["aotools.functions.karhunenLoeve.gkl_fcom", "aotools.functions.karhunenLoeve.gkl_sfi", "aotools.functions.karhunenLoeve.set_pctr",
+VIA_PARENT = ["aotools.functions.karhunenLoeve.set_pctr",
               "aotools.functions.karhunenLoeve.setpincs", "aotools.functions.karhunenLoeve.pcgeom", "aotools.functions.karhunenLoeve.pol2car"]
 
 
